@@ -178,7 +178,14 @@ class Desugar:
             if isinstance(c, ast.expr):
                 acc.append(c)
         if isinstance(e, ast.Dict):
-            acc = [c for c in kids if isinstance(c, ast.expr) and c is not kids[idx]]
+            # a display evaluates key, value, key, value ... (a `**mapping` entry has no key)
+            order = []
+            for k_, v_ in zip(e.keys, e.values):
+                if k_ is not None:
+                    order.append(k_)
+                order.append(v_)
+            pos = next(i for i, x in enumerate(order) if x is kids[idx])
+            acc = order[:pos]
         rest = Desugar._before(kids[idx], target)
         if rest is None:
             return None
